@@ -492,8 +492,14 @@ fn amend_benefit_sales(pdf_data: PdfData) -> Result<AmendBenefitsRes, Vec<SError
                 // Remove matches from leftover trades
                 let mut indexes = Vec::<usize>::with_capacity(matched_trades.len());
                 for t in matched_trades {
-                    let index =
-                        leftover_trade_confs.iter().position(|t_| t_ == t).unwrap();
+                    // Two confirmations can be equal in every field (same-sized
+                    // fills of one order, saved under the same file name in
+                    // different folders). Each match must take its own entry.
+                    let index = leftover_trade_confs
+                        .iter()
+                        .enumerate()
+                        .position(|(i, t_)| t_ == t && !indexes.contains(&i))
+                        .unwrap();
                     indexes.push(index);
                 }
                 // Sort reversed
